@@ -14,6 +14,13 @@ theorem tree_strict_irrelevant (v : VersionIf) (fuel number : Nat) (cls : PageTy
     parseBTree { v with strict := false } fuel number cls = .ok t := by
   exact Proofs.Config.tree_strict_irrelevant v fuel number cls t h
 
+/-- the same for the walk of the repaired code, which refuses a page reached twice (`seen`: the
+pages already constructed in the walk) -/
+theorem walk_strict_irrelevant (v : VersionIf) (fuel number : Nat) (cls : PageType) (seen : List Nat)
+    (t : List BPage) (h : parseBTreeW { v with strict := true } fuel number cls seen = .ok t) :
+    parseBTreeW { v with strict := false } fuel number cls seen = .ok t := by
+  exact Proofs.Config.treeW_strict_irrelevant v fuel number cls seen t h
+
 /-- the same for a whole database file -/
 theorem database_strict_irrelevant (cfg : Config) (file : Buf) (db : Database) (v : VersionIf)
     (h : openDatabase { cfg with strict := true } file = .ok (db, v)) :
